@@ -75,6 +75,13 @@ func TestC06(t *testing.T) {
 				started[f[1]] = true
 				u, _ := tagUID(f[1])
 				trace = append(trace, fmt.Sprintf("s:%d", u))
+			case "builtinwork":
+				// the built-in method is executing now, next to `running` user handlers
+				if m := runningRe.FindStringSubmatch(e); m != nil {
+					if n, _ := strconv.Atoi(m[1]); n+1 > sc.Concurrency {
+						res.Violatef("more handlers executing than the Concurrency limit", in, "the built-in rpc.serverInfo did its work while %d handlers were executing, limit %d; log: %s", n, sc.Concurrency, shortLog(r.Log))
+					}
+				}
 			case "hfinish":
 				running--
 				busySince = -1
